@@ -38,6 +38,7 @@ func init() {
 	} {
 		register("C12", r)
 	}
+	register("C04", &core.Rule{ID: "C04.15", Title: "payload bytes are a fresh copy: whatever the options, a batch that is still held when the next one is produced keeps its bytes", Mod: core.ModRoot, Floor: 4, Run: c12_6})
 	register("C01", &core.Rule{ID: "C01.6", Title: "payload bytes are a fresh copy (a later batch cannot clobber an earlier one)", Mod: core.ModRoot, Floor: 4, Run: c12_6})
 	register("C02", &core.Rule{ID: "C02.6", Title: "payload bytes are a fresh copy (a later batch cannot clobber an earlier one)", Mod: core.ModRoot, Floor: 4, Run: c12_6})
 	register("C03", &core.Rule{ID: "C03.6", Title: "payload bytes are a fresh copy (a later batch cannot clobber an earlier one)", Mod: core.ModRoot, Floor: 4, Run: c12_6})
